@@ -247,6 +247,32 @@ example : SubstOk ⟨fun n => if n = "d" ∨ n = "w" then some .alg else none, f
     · simp [hn] at h
   · intro n h; simp at h; subst h; decide
 
+/-- **postcheck_invariant_under_expansion.** `expand_vectors` replaces every literally
+    subscripted reference `x[k]` / `der(x[k])` in the delayed expressions *and in the durations* by
+    the scalar symbol of the element, for the arrays of every variable group; if the elements
+    inherit the category and fixedness of their array, the duration check gives the same verdict
+    before and after — a duration on an element of an array state, derivative or algebraic
+    variable stays rejected. -/
+theorem postcheck_invariant_under_expansion (c c' : Cats) (h : ExpandsTo c c') (args : List DArg)
+    (hlv : ∀ a ∈ args, ∀ n k, a.lv ≠ some (elemName n k)) :
+    postCheckFails c' (args.map (fun a => { a with dur := expandRef a.dur })) = postCheckFails c args := by
+  have key : ∀ (l : List DArg), (∀ a ∈ l, a ∈ args) →
+      (l.map (fun a => { a with dur := expandRef a.dur })).any (fun a => (atoms a.lv a.dur).any (disallowed c')) =
+        l.any (fun a => (atoms a.lv a.dur).any (disallowed c)) := by
+    intro l
+    induction l with
+    | nil => intro _; rfl
+    | cons a t ih =>
+      intro hl
+      have ha : a ∈ args := hl a (by simp)
+      have := (expand_atoms h a.lv (hlv a ha) a.dur).2
+      simp only [List.map_cons, List.any_cons, this, ih (fun x hx => hl x (by simp [hx]))]
+  exact key args (fun _ hx => hx)
+
+example : atoms none (expandRef (.bin .add (.ref "p") (.idx "as" (.lit 3)))) = [.var "p", .var "as[3]"] ∧
+    atoms none (expandRef (.derAt "xs" (.lit 2))) = [.der "xs[2]"] := by
+  constructor <;> decide
+
 /-- **cached_calls_agree.** With `cache=True`, any number of successive `transfer_model` calls
     on the same folder give the outcome of compiling the source — a rejected model is rejected
     by every call, because a cache file exists only after a compilation that passed
